@@ -695,6 +695,27 @@ class VmWorld:
             cell.set(e, AbsStr(nxt if cur.s.eq(EMPTY) else str_concat(cur.s, nxt)))
             return UNIT
         m(r'^(std::string::|alloc::string::)?String::push_str$', m_push_str)
+
+        def m_join(e, a, c):
+            v = a[0]
+            while isinstance(v, Ref):
+                v = v.cell.get(e)
+            if isinstance(v, SliceRef):
+                n = conc(z3.simplify(e.slice_len(v)))
+                if n is None:
+                    raise Unsupported('join over a slice of symbolic length')
+                items = [e.seq_cell(v.seq, z3.simplify(v.start + i)).get(e) for i in range(n)]
+            elif isinstance(v, ConcSeq):
+                items = [cc.get(e) for cc in v.cells]
+            else:
+                raise Unsupported('join over ' + type(v).__name__)
+            sep = str_term(e, a[1])
+            out = None
+            for it in items:
+                t = str_term(e, it)
+                out = t if out is None else str_concat(str_concat(out, sep), t)
+            return AbsStr(out if out is not None else EMPTY)
+        m(r'^(alloc::|std::)?(slice|str)::<impl \[.*\]>::join$', m_join)
         m(r'^<(std::string::|alloc::string::)?String as (std::ops::|core::ops::)?Deref>::deref$',
           lambda e, a, c: AbsStr(str_term(e, a[0])))
         m(r'^core::str::<impl str>::len$', lambda e, a, c: _len(e, str_term(e, a[0])))
